@@ -19,7 +19,7 @@ struct ChildOut { int status = 0; bool cfg_ok = false, ok = false; std::string e
 
 // Run the writer in a forked child with some of descriptors 0..2 closed (before or after the
 // output descriptor is created).  Result comes back through a memfd created beforehand.
-static ChildOut write_in_child(const lib::WCfg &cfg, const Bytes &D, const std::vector<lib::WOp> &ops, unsigned close_mask, bool close_before_out, unsigned cpu_s) {
+static ChildOut write_in_child(const lib::WCfg &cfg, const Bytes &D, const std::vector<lib::WOp> &ops, unsigned close_mask, bool close_before_out, unsigned cpu_s, int warmup = 0) {
     ChildOut co; int res = memfd_create("res", 0);
     fflush(stdout); fflush(stderr);
     pid_t pid = fork();
@@ -30,6 +30,11 @@ static ChildOut write_in_child(const lib::WCfg &cfg, const Bytes &D, const std::
         if (close_before_out) for (int fd = 0; fd < 3; fd++) if (close_mask & (1u << fd)) close(fd);
         int out = memfd_create("out", 0);
         if (!close_before_out) for (int fd = 0; fd < 3; fd++) if (close_mask & (1u << fd)) close(fd);
+        // other contexts that lived and died in this process before the writer under test starts: a writer with a dictionary made
+        // of the content (1, 3), a reader of such a file (2, 3).  Nothing of them may carry over into the writer under test.
+        if (warmup) { lib::WCfg wc; wc.comp = ZCK_COMP_ZSTD; wc.dict.assign(D.begin(), D.begin() + std::min<size_t>(D.size(), 3000)); if (wc.dict.empty()) wc.dict.assign(200, 'w'); wc.manual = (warmup & 1) != 0;
+            Bytes WD(D.begin(), D.begin() + std::min<size_t>(D.size(), 20000)); lib::WResult wr = lib::write_file(wc, WD, {});
+            if (wr.ok && (warmup & 2)) { lib::RResult rr = lib::read_file(wr.file, {4096}); (void)rr; } }
         // inline variant of lib::write_file with a caller-supplied output descriptor
         zckCtx *z = zck_create(); bool cfg_ok = false, good = false; std::string err;
         if (!zck_init_write(z, out)) err = std::string("init_write: ") + zck_get_error(z);
@@ -94,7 +99,8 @@ static void prop(Ctx &c) {
     c.desc << "D=" << ct.str() << " cfg{" << cfg.str() << "} ops=" << gen::ops_str(ops) << " reads=" << gen::sizes_str(rsz);
     if (close_mask) c.desc << " closed_fds_mask=" << close_mask << (close_before ? "(before out)" : "(after out)");
 
-    ChildOut w = write_in_child(cfg, D, ops, close_mask, close_before, cpu_s);
+    int warmup = c.gver >= 4 && c.rarely(5) ? 1 + (int)c.draw(2) : 0; if (warmup) { c.desc << " after-another-context(" << warmup << ")"; c.label("after-another-context"); }
+    ChildOut w = write_in_child(cfg, D, ops, close_mask, close_before, cpu_s, warmup);
     if (w.hang) c.fail("write-hang", "write path did not terminate within " + std::to_string(cpu_s) + " s of CPU time (about " + std::to_string(est_chunks) + " chunks expected)");
     if (w.crashed) c.fail("write-crash", "writer child died, wait status " + std::to_string(w.status));
     if (!w.cfg_ok) { c.label("cfg-refused"); return; }                 // a refused configuration is outside the property's domain
